@@ -170,5 +170,7 @@ def _ops_of(e):
 
 
 def chunks(templates, n):
-    k = max(1, (len(templates) + n - 1) // n)
-    return [templates[i:i + k] for i in range(0, len(templates), k)]
+    """n work units, dealt round-robin: neighbouring templates share their operator and so their cost (the division family
+    is the expensive one), contiguous slices left one unit with all of them"""
+    n = max(1, min(n, len(templates)))
+    return [templates[i::n] for i in range(n)]
